@@ -26,7 +26,7 @@
 From Coq Require Import String.
 From Emmet Require Import lib.Base lib.StrLit model.MarkupTokenizer model.MarkupParser model.MarkupConvert
      model.OutStream model.FormatHtml model.FormatIndent proofs.IndentStream proofs.IndentProofs
-     proofs.HtmlEvents proofs.IndentHtml.
+     proofs.HtmlEvents proofs.IndentHtml proofs.IndentLines model.MarkupResolve model.MarkupExpand.
 
 (* indent_lines: for ALL trees in the domain, ALL option records (indent, newline, baseIndent strings, case,
    quotes, ...) and ALL punctuation records without line breaks, the output is exactly the lines of the
@@ -50,6 +50,31 @@ Theorem C15_indent_lines_syntax :
     = join (of_newline (oc_fmt c) ++ of_base_indent (oc_fmt c)) (flat_map (node_lines c o 0) forest).
 Proof. exact indent_lines_syntax. Qed.
 Print Assumptions C15_indent_lines_syntax.
+
+(* the same at the level of lines: with newline "\n" and no base indent, str.split("\n") of the output is the
+   list of lines of the walk (field placeholders, text marks and the indent string free of "\n") *)
+Theorem C15_indent_lines_split :
+  forall (c : oconfig) (o : iopts),
+    iopts_wf o = true ->
+    nonl (io_before_text o) = true /\ nonl (io_after_text o) = true ->
+    nonl (of_indent (oc_fmt c)) = true ->
+    forall forest : list anode,
+    of_newline (oc_fmt c) = [c_nl] -> of_base_indent (oc_fmt c) = [] -> forest <> [] ->
+    forallb node_wf forest = true -> forallb fields_nonl forest = true ->
+    lines (os_value (fs_out (indent_format c o forest))) = flat_map (node_lines c o 0) forest.
+Proof. exact indent_lines_split. Qed.
+Print Assumptions C15_indent_lines_split.
+
+(* end to end: expand(abbr, config) under haml / pug / slim, whenever the parsed and resolved tree is in the domain *)
+Theorem C15_expand_indent_lines :
+  forall (x : xconfig) (abbr : str) (tree : list anode) (o : iopts),
+    markup_parse (xc_m x) abbr = Ok tree ->
+    syntax_opts (mc_syntax (xc_m x)) (xc_o x) = Some o ->
+    forallb node_wf tree = true ->
+    expand_markup_str x abbr
+    = Ok (join (of_newline (oc_fmt (xc_o x)) ++ of_base_indent (oc_fmt (xc_o x))) (flat_map (node_lines (xc_o x) o 0) tree)).
+Proof. exact expand_indent_lines. Qed.
+Print Assumptions C15_expand_indent_lines.
 
 (* multiline_text: a value with k > 1 lines yields k lines one level deeper, with the syntax's marks, and
    nothing on the element's own line. *)
@@ -132,6 +157,7 @@ Example C15_nonvacuous :
   forallb node_wf ex_tree = true /\ forallb node_clean ex_tree = true /\ forallb named_tree ex_tree = true
   /\ cfg_clean ex_cfg = true
   /\ iopts_wf haml_opts = true
+  /\ forallb fields_nonl ex_tree = true
   /\ nest 0 (flat_map (tree_events ex_cfg) ex_tree) = [(0, S "ul"); (1, S "li"); (1, S "div")]
   /\ join [c_nl] (flat_map (node_lines ex_cfg haml_opts 0) ex_tree)
      = S "%ul#nav.a.b" ++ [c_nl; c_tab] ++ S "%li(title=""x"")" ++ [c_nl; c_tab; c_tab] ++ S "two   |"
